@@ -8,7 +8,7 @@ out_pre = [m for m in metas if not m['detected_by'] and 'outside the claim' in m
 undet = [m for m in metas if not m['detected_by'] and m not in out_pre]
 caught_own = [m for m in metas if m['breaks_property'] in m['detected_by']]
 caught_other = [m for m in metas if m['detected_by'] and m['breaks_property'] not in m['detected_by']]
-intro = ('%d changes from independent sub-agents (ten rounds; later rounds were told which mechanisms had already been used and, '
+intro = ('%d changes from independent sub-agents (eleven rounds; later rounds were told which mechanisms had already been used and, '
          'from round four on, the well-formedness precondition). %d break a property on well-formed definitions: %d are caught by the check '
          'of the property they were written for, %d by the check of a neighbouring property that states the broken behaviour more directly '
          '(remarks column). About half were caught only after the check had been strengthened as noted in the last column - the misses were '
